@@ -233,6 +233,14 @@ def shapes(tier, warnings=('all', 'none')):
     add('two schemas using each other', 'USE FROM + defined type renaming the other schema\'s type',
         'SCHEMA a;\nUSE FROM b (tb2);\nTYPE ta = REAL;\nEND_TYPE;\nTYPE ta2 = tb2;\nEND_TYPE;\nENTITY ea;\n  x : ta;\nEND_ENTITY;\nEND_SCHEMA;\n'
         'SCHEMA b;\nUSE FROM a (ta);\nTYPE tb = ta;\nEND_TYPE;\nTYPE tb2 = INTEGER;\nEND_TYPE;\nENTITY eb;\n  y : tb;\nEND_ENTITY;\nEND_SCHEMA;\n')
+    add('UNIQUE rule on SELF\\super.attr followed by a plain attribute rule', 'entity redeclaring an inherited attribute',
+        wrap('ENTITY sup;\n  a : INTEGER;\nEND_ENTITY;\nENTITY sub\n  SUBTYPE OF (sup);\n  SELF\\sup.a : INTEGER;\n  b : INTEGER;\nUNIQUE\n'
+             '  ur1 : SELF\\sup.a;\n  ur2 : b;\nEND_ENTITY;\n'))
+    add('UNIQUE rule on a plain attribute followed by one on SELF\\super.attr', 'entity redeclaring an inherited attribute',
+        wrap('ENTITY sup;\n  a : INTEGER;\nEND_ENTITY;\nENTITY sub\n  SUBTYPE OF (sup);\n  SELF\\sup.a : INTEGER;\n  b : INTEGER;\nUNIQUE\n'
+             '  ur1 : b;\n  ur2 : SELF\\sup.a;\nEND_ENTITY;\n'))
+    add('SELF in a SUPERTYPE OF expression', 'entity', wrap('ENTITY e0\n  SUPERTYPE OF (e3 ANDOR SELF);\nEND_ENTITY;\nENTITY e3\n  SUBTYPE OF (e0);\nEND_ENTITY;\n'))
+    add('literal in a SUPERTYPE OF expression', 'entity', wrap('ENTITY e0\n  SUPERTYPE OF (ONEOF (e3, 1));\nEND_ENTITY;\nENTITY e3\n  SUBTYPE OF (e0);\nEND_ENTITY;\n'))
     add('subtype cycle', 'attribute looked up through the cycle',
         wrap('ENTITY a\n  SUBTYPE OF (b);\n  x : INTEGER;\nEND_ENTITY;\nENTITY b\n  SUBTYPE OF (a);\n  y : INTEGER;\nEND_ENTITY;\n'
              'ENTITY c\n  SUBTYPE OF (b);\n  z : INTEGER;\nDERIVE\n  SELF\\a.x : INTEGER := 1;\nEND_ENTITY;\n'))
